@@ -2,8 +2,23 @@ import CoxeterVerif.Driver.Proto
 import CoxeterVerif.Model.ConvexPolyhedron
 import CoxeterVerif.Spec.Solid
 import CoxeterVerif.Model.ChainCheck
+import CoxeterVerif.Model.ConvexPolyhedronHistory
 
 namespace OpsC01
+open Mut
+
+def rdTriple (c : Ctx) : Rd (Nat × Nat × Nat) := do
+  let a ← Rd.nat c; let b ← Rd.nat c; let d ← Rd.nat c; pure (a, b, d)
+
+def rdEq {α} [Codec α] (c : Ctx) : Rd (V3 α × α) := do
+  let n ← Rd.v3 c; let d ← Rd.sc c; pure (n, d)
+
+def outNats (l : List Nat) : String := " ".intercalate (s!"i{l.length}" :: l.map fun x => s!"i{x}")
+def outNatLists (l : List (List Nat)) : String := " ".intercalate (s!"i{l.length}" :: l.map outNats)
+
+/-- what the getters of a state return: volume area centroid(3) inertia_tensor(9) -/
+def outMeasures {α} [Scalar α] [Codec α] (s : CPState α) : String :=
+  s!"{Out.sc s.volume} {Out.sc s.area} {Out.v3 s.centroid} {Out.m3 (CPH.inertiaTensor s)}"
 
 /-- ops of C01. `none` = unknown op. -/
 def run (α : Type) [Scalar α] [Codec α] (op : String) (c : Ctx) : Option (Rd String) :=
@@ -42,6 +57,38 @@ def run (α : Type) [Scalar α] [Codec α] (op : String) (c : Ctx) : Option (Rd 
       let S : List (Tri α) ← Rd.list c (Rd.tri c)
       let p : V3 α ← Rd.v3 c
       pure (Out.bool (ChainCheck.chainCheck S ((ChainCheck.cone p S).flatMap Tet.bdry)))
+  | "cp.history" => some do
+      -- in: verts, oriented simplices (index triples), hull.volume, hull.area, nops, then per op
+      --     0 v (volume.setter) | 1 v (surface_area.setter) | 2 current v (a *_radius setter) | 3 c(3) (centroid.setter)
+      -- out: measures of the constructed object, then per op: raised? (i0/i1) + measures after it
+      let verts : List (V3 α) ← Rd.list c (Rd.v3 c)
+      let simplices ← Rd.list c (rdTriple c)
+      let hv : α ← Rd.sc c
+      let ha : α ← Rd.sc c
+      let n ← Rd.nat c
+      let mut s : CPState α := CPH.construct verts simplices [] [] [] hv ha
+      let mut out : List String := [outMeasures s]
+      for _ in [0:n] do
+        let code ← Rd.nat c
+        let op : CPH.MOp α ←
+          if code = 0 then do let v ← Rd.sc c; pure (CPH.MOp.setVolume v)
+          else if code = 1 then do let v ← Rd.sc c; pure (CPH.MOp.setSurfaceArea v)
+          else if code = 2 then do let cur ← Rd.sc c; let v ← Rd.sc c; pure (CPH.MOp.setRadius cur v)
+          else do let cc ← Rd.v3 c; pure (CPH.MOp.setCentroid cc)
+        match CPH.step s op with
+        | .ok s' => s := s'; out := out ++ ["i0 " ++ outMeasures s]
+        | .error _ => out := out ++ ["i1 " ++ outMeasures s]
+      pure (" ".intercalate out)
+  | "cp.combine" => some do
+      -- `_combine_simplices`: in: Qhull's simplex equations (normal(3) offset), tol ; out: the face groups
+      let eqs : List (V3 α × α) ← Rd.list c (rdEq c)
+      let tol : α ← Rd.sc c
+      pure (outNatLists (CP.combineSimplices tol eqs))
+  | "cp.partition" => some do
+      -- in: n, groups ; out: CP.groupsPartition n groups (hypothesis of cp_surface_area_eq_sum_faces_checked)
+      let n ← Rd.nat c
+      let groups ← Rd.list c (Rd.list c (Rd.nat c))
+      pure (Out.bool (CP.groupsPartition n groups))
   | _ => none
 
 end OpsC01
